@@ -443,6 +443,13 @@ class CallMixin(ExprMixin):
         if isinstance(v, View):
             v = v.base
         if isinstance(v, Ref):
+            if META[v.oid].kind == "bytebuf":
+                # content changes, size does not (no resizing of exported buffers)
+                old = st.get(v, "data")
+                new = smt.fresh("data", smt.Bytes)
+                st.assume(smt.L(new) == smt.L(old))
+                st.set(v, "data", new)
+                return
             for k, cur in list(st.heap[v.oid].items()):
                 if k.startswith("$"):
                     continue
@@ -465,6 +472,13 @@ class CallMixin(ExprMixin):
             return cur
         raise EngineError(f"cannot havoc {label}: {cur!r}")
 
+    def populate_exc(self, st: State, exc: Ref, cname: str, c: Contract) -> None:
+        fields = c.exc_fields.get(cname)
+        if fields is None and cname in self.R.shapes:
+            fields = {k: v for k, v in self.R.shapes[cname].fields.items() if k != "args"}
+        for fn_, ft in (fields or {}).items():
+            st.heap[exc.oid][fn_] = self.make_symbolic(st, ft, f"exc_{fn_}")
+
     def apply_contract(self, st: State, ctx: Ctx, fi: FuncInfo, c: Contract, args: list, kwargs: dict, line: int):
         frame = self.new_frame(st, None, "contract:" + fi.qualname)
         self.bind_params(st, ctx, fi, frame, args, kwargs, None)
@@ -485,8 +499,7 @@ class CallMixin(ExprMixin):
             s2 = st.clone()
             cls = self.class_by_name(cname)
             exc = self.make_exc(s2, cls, ())
-            for fn_, ft in c.exc_fields.get(cname, {}).items():
-                s2.heap[exc.oid][fn_] = self.make_symbolic(s2, ft, f"exc_{fn_}")
+            self.populate_exc(s2, exc, cname, c)
             ectx = self.spec_ctx(fi, frame, (old, frame), {"exc": exc})
             for cl in clauses:
                 s2.assume(self.eval_clause(cl, s2, ectx))
